@@ -5,7 +5,7 @@ from props import system_common
 
 def run(out: common.Outcome):
     system_common.standard_run(
-        out, "C15", [("crash", 1.0)], ["exactly_once", "stuck", "internal_error", "crash_reports"],
+        out, "C15", [("crash", 1.0)], ["requeue", "exactly_once", "stuck", "internal_error", "crash_reports"],
         nontrivial=lambda r: r["cfg"]["requeue"] > 0 and len(r["summary"]["dead"]) >= 1,
         rule="load and worksteal sessions in which a pytest_handlecrashitem plugin re-queues the first 0-2 crashed tests; non-trivial = a re-queue budget and at least one death",
         modes=["load", "worksteal"])
